@@ -35,7 +35,10 @@ def render_spec(E):
     a += ['struct S3', '    k %s' % ('A1' if 'f_alias' in E else 'Int32')]
     if 'doc_field' in E:
         a.append('        "Like :field:`S7.x`."')
-    a += ['', 'alias A1 = S4', '', 'struct S4']
+    a += ['', 'alias A1 = S4']
+    if 'doc_on_alias' in E:
+        a.append('    "An alias; see also :type:`S8`."')
+    a += ['', 'struct S4']
     if 'doc_type' in E:
         a.append('    "Related to :type:`S6`."')
     a += ['    c Int32', '', 'struct S7', '    x Int32', '']
